@@ -17,7 +17,7 @@ from m3 import M3, SQ2, q
 
 PROPS = ["TfelVerif.C02." + m for m in (
     "PropsT", "PropsN1", "Props2ST", "Props2TT", "Props2TS", "Props2S2T", "Props3ST", "Props3TT", "Props3TS", "Props3S2T",
-    "PropsPF", "PropsCB", "Props")]
+    "PropsPF", "PropsCB", "PropsConv", "Props")]
 PARTS = [1, 2, 3, 4, 5]     # -DC02_PART=<k> (see main() of the tracer)
 REPO_SRC = ["/src/Exception/ContractViolation.cxx", "/src/Exception/TFELException.cxx", "/src/Math/MathException.cxx",
             "/src/Math/TensorConcept.cxx"]
